@@ -1,11 +1,18 @@
 import PySMT.Proofs.C02Model
 import PySMT.Proofs.SimpFold
+import PySMT.Proofs.C02Exact
 /-!
 # C02 — Model evaluation returns the exact value: what C01 gives, and fold completeness
 
 Model: `PySMT.Model.getValue` (Impl/Model.lean) = `EagerModel.get_value`
 (pysmt/solvers/eager.py:43-79): complete the assignment with the documented defaults,
-substitute the constants, simplify, return the result if it is a constant.
+substitute the constants, simplify, return the result if it is a constant; `PySMT.Model.satisfies`
+= `Model.satisfies` (pysmt/solvers/solver.py:492-532) without solver argument.
+
+Exactness (the property's first sentence): `ground_simp_const_partial`, `getValue_exact_partial`,
+`satisfies_iff_partial`, `completion_exact_partial`, over the interpretation `interpOf σ` an
+assignment stands for and the constant node `constOf v` of a scalar value (Proofs/C02Exact.lean).
+Soundness for partial assignments: `noCompletion_sound_partial`, `getValue_sound_partial`.
 
 All theorems are `_partial` for the same reason as in C01: they are stated on the fragment
 `inFrag` of the simplifier model (Boolean/core, arithmetic, bit-vector, string and array families,
@@ -72,6 +79,79 @@ with constant arguments stays an array value, not a scalar constant) maps consta
 theorem rule_folds (op : Op) (e : Simp.Entry) (h : ruleOf op = some e) (h1 : op ≠ .symbol) (h2 : op ≠ .function)
     (h3 : op ≠ .arrayValue) : Simp.FoldOK op e := ruleOf_fold' op e h h1 h2 h3
 
+/-! ## exactness -/
+
+/-- **a ground term simplifies to the constant it denotes**: for a well-formed term of the fragment
+without symbols, applications, quantifiers and array values (`ground`; so its sort is scalar) that
+evaluates no division by zero, `simp t` is a constant node, namely the constant node of the value of
+`t` (by induction with `rule_folds` + soundness of `simp`). (partial: fragment `inFrag`; array
+values are not scalar constants, see header) -/
+theorem ground_simp_const_partial (t : Term) (τ : Ty) (hwf : t.wf = true) (hfr : inFrag t = true)
+    (hty : t.typeOf = some τ) (hg : ground t = true) (I : Interp) (hI : I.WF) (hd : div0 I t = false) :
+    (simp t).op.isConstant = true ∧ simp t = constOf (eval I t) := by
+  have hc := fold_complete t τ hwf hfr hty hg I hI hd
+  obtain ⟨⟨_, sw⟩, ss, _⟩ := simp_spec t hwf hfr τ hty
+  refine ⟨hc, ?_⟩
+  rw [← (ss I hI hd).1]
+  exact const_constOf _ sw hc I
+
+/-- **`get_value` is exact**: for a quantifier-free formula without UF applications (and without
+array values: `evaluable`), a type-correct assignment `σ` of scalar constants that is total on the
+free symbols of `f`, and no division by zero evaluated under the interpretation `interpOf σ` the
+assignment stands for, `get_value` (with or without completion) returns exactly the constant node of
+the value of `f`. (partial: fragment `inFrag` — no `pow`, no equality of arrays indexed by
+bit-vectors wider than 8 bits, no array-indexed arrays — and no array values / array-valued
+assignments) -/
+theorem getValue_exact_partial (completion : Bool) (σ : Asg) (hσ : AsgOK σ) (f : Term) (τ : Ty)
+    (hwf : f.wf = true) (hev : evaluable f = true) (hfr : inFrag f = true) (hty : f.typeOf = some τ)
+    (htot : ∀ s ∈ f.fv, (σ.get s).isSome = true) (hd : div0 (interpOf σ) f = false) :
+    getValue completion σ f = some (constOf (eval (interpOf σ) f)) := by
+  obtain ⟨e, _, hc⟩ := exact_core σ hσ f τ hwf hev hfr hty htot hd
+  have hcomp : (if completion then complete σ f.fv else some σ) = some σ := by
+    cases completion
+    · rfl
+    · simp only [if_true]; exact complete_of_total f.fv σ htot
+  rw [e] at hc
+  simp only [getValue, hcomp, e, hc, if_true]
+
+/-- **`satisfies`**: under the same hypotheses, for a Boolean formula the model reports that it
+satisfies `f` iff the value of `f` is true (and it never raises). (partial: as above) -/
+theorem satisfies_iff_partial (σ : Asg) (hσ : AsgOK σ) (f : Term) (hwf : f.wf = true) (hev : evaluable f = true)
+    (hfr : inFrag f = true) (hty : f.typeOf = some .bool) (htot : ∀ s ∈ f.fv, (σ.get s).isSome = true)
+    (hd : div0 (interpOf σ) f = false) :
+    ∃ b, satisfies σ f = some b ∧ (b = true ↔ eval (interpOf σ) f = .b true) := by
+  obtain ⟨e, _, _⟩ := exact_core σ hσ f .bool hwf hev hfr hty htot hd
+  obtain ⟨v, hv⟩ := Val.hasSort_bool (eval_hasSort f hwf _ hty _ (interpOf_wf σ hσ))
+  refine ⟨v, ?_, ?_⟩
+  · simp only [satisfies, complete_of_total f.fv σ htot, e, hv, constOf]
+    cases v <;> rfl
+  · rw [hv]; cases v <;> simp
+
+/-- **completion**: symbols of `f` absent from the assignment behave as the documented defaults.
+`interpOf σ` gives every unassigned symbol the default value of its sort (false, 0, 0.0, the zero
+bit-vector); if every unassigned free symbol of `f` has such a sort, `get_value` with completion
+returns exactly the constant node of the value of `f` under it. (partial: as above) -/
+theorem completion_exact_partial (σ : Asg) (hσ : AsgOK σ) (f : Term) (τ : Ty)
+    (hwf : f.wf = true) (hev : evaluable f = true) (hfr : inFrag f = true) (hty : f.typeOf = some τ)
+    (hmiss : ∀ s ∈ f.fv, σ.get s = none → s.params = [] ∧ (defaultOf s.ret).isSome = true)
+    (hd : div0 (interpOf σ) f = false) :
+    getValue true σ f = some (constOf (eval (interpOf σ) f)) ∧
+      ∀ s, σ.get s = none → (interpOf σ).sym s = s.ret.defaultVal := by
+  obtain ⟨σ', h1, h2, h3, h4, h5⟩ := complete_spec f.fv σ hmiss
+  obtain ⟨hσ', _⟩ := complete_ok f.fv σ σ' hσ h1
+  have hI : interpOf σ' = interpOf σ := interpOf_complete σ σ' f.fv h2 h3 h5
+  obtain ⟨e, _, hc⟩ := exact_core σ' hσ' f τ hwf hev hfr hty h4 (by rw [hI]; exact hd)
+  refine ⟨?_, fun s hs => by simp only [interpOf, hs]⟩
+  rw [e, hI] at hc
+  simp only [getValue, if_true, h1, e, hI, hc]
+
+/-- the documented defaults -/
+theorem defaults_table (w : Nat) :
+    defaultOf .bool = some (Term.bool false) ∧ defaultOf .int = some (Term.int 0) ∧
+    defaultOf .real = some (Term.real 0) ∧ defaultOf (.bv w) = some (Term.bvc 0 w) ∧
+    Ty.bool.defaultVal = .b false ∧ Ty.int.defaultVal = .i 0 ∧ Ty.real.defaultVal = .r 0 ∧
+    (Ty.bv w).defaultVal = .bv w 0 := ⟨rfl, rfl, rfl, rfl, rfl, rfl, rfl, rfl⟩
+
 /-! ## non-vacuity -/
 
 /-- the assignment `x ↦ 3` is admissible, and an interpretation extending it exists -/
@@ -89,5 +169,47 @@ example : AsgOK [(Sym.var "x" .int, Term.int 3)] ∧
     split at h
     · cases h; exact eval_intc _ 3
     · cases h
+
+/-- the hypotheses of the exactness theorems are satisfiable: `x ≤ 3` under `x ↦ 3` -/
+example : ∃ (σ : Asg) (f : Term), AsgOK σ ∧ f.wf = true ∧ evaluable f = true ∧ inFrag f = true ∧
+    f.typeOf = some .bool ∧ (∀ s ∈ f.fv, (σ.get s).isSome = true) ∧ div0 (interpOf σ) f = false := by
+  let xs : Sym := Sym.var "x" .int
+  let x : Term := Term.var "x" .int
+  let f : Term := .node .le [x, Term.int 3] .none
+  let σ : Asg := [(xs, Term.int 3)]
+  obtain ⟨wx, tx, fx⟩ : x.wf = true ∧ x.typeOf = some .int ∧ inFrag x = true := var_ok "x" .int
+  have hty : f.typeOf = some .bool := Simp.BoolRules.typeOf_rel_mk (Or.inl rfl) _ (Or.inl ⟨tx, typeOf_int 3⟩)
+  have hmem : ∀ a ∈ [x, Term.int 3], a = x ∨ a = Term.int 3 := by intro a ha; simpa using ha
+  refine ⟨σ, f, ?_, ?_, ?_, ?_, hty, ?_, ?_⟩
+  · intro s c h
+    simp only [σ, Asg.get] at h
+    split at h
+    · next hs => cases h; subst hs; exact ⟨wf_int 3, typeOf_int 3, rfl⟩
+    · cases h
+  · exact wf_mk' (by intro a ha; rcases hmem a ha with rfl | rfl; exact wx; exact wf_int 3) rfl hty
+  · show evaluable (.node .le [.node .symbol [] (.sym xs), .node .intConst [] (.i 3)] .none) = true
+    rw [evaluable]
+    simp only [List.map_cons, List.map_nil, List.all_cons, List.all_nil]
+    rw [evaluable, evaluable]
+    rfl
+  · refine frag_node (e := Simp.BoolRules.walkLe) rfl rfl ?_
+    intro a ha
+    rcases hmem a ha with rfl | rfl
+    · exact fx
+    · exact frag_node (e := Simp.keep .intConst) rfl rfl (by simp)
+  · intro s hs
+    obtain ⟨a, ha, hs⟩ := (mem_fv_plain (by simp) (by simp) rfl).mp hs
+    rcases hmem a ha with rfl | rfl
+    · have : s = xs := by
+        have e : x.fv = [xs] := by show (Term.node .symbol [] (.sym xs)).fv = _; rw [fv_symbol]
+        rw [e] at hs; simpa using hs
+      subst this
+      simp [σ, Asg.get]
+    · simp at hs
+  · rw [div0_plain _ .le _ _ rfl (by simp)]
+    simp only [List.any_cons, List.any_nil, Bool.or_false, div0_int]
+    show div0 _ (Term.node .symbol [] (.sym xs)) = false
+    rw [div0_plain _ .symbol _ _ rfl (by simp)]
+    rfl
 
 end PySMT.C02
